@@ -40,6 +40,9 @@ NON_PP = [(".google.iam.v1.SetIamPolicyRequest", "google/iam/v1/iam_policy.proto
           (".google.longrunning.GetOperationRequest", "google/longrunning/operations.proto"),
           (".google.protobuf.Empty", "google/protobuf/empty.proto"),
           (".google.iam.v1.TestIamPermissionsRequest", "google/iam/v1/iam_policy.proto")]
+IAM_REQ = {"SetIamPolicy": ".google.iam.v1.SetIamPolicyRequest", "GetIamPolicy": ".google.iam.v1.GetIamPolicyRequest",
+           "TestIamPermissions": ".google.iam.v1.TestIamPermissionsRequest"}
+IAM_KEYS = {"get_iam_policy", "set_iam_policy", "test_iam_permissions"}
 KINDS = {"grpc": ["grpc", "grpc-async"], "rest": ["rest"]}
 
 
@@ -71,12 +74,19 @@ def meta_api(r, defect_case=False):
         names = list(dict.fromkeys(r.sample(RPC_POOL, r.randint(1, 6))))
         if defect_case == "unsafe" and si == 0:
             names = list(dict.fromkeys(TRANSPORT_UNSAFE + names))[:5]
+        elif defect_case == "iam" and si == 0 and r.random() < 0.7:
+            # the API declares IAM rpcs itself (supported next to the IAMPolicy mixin: the client's methods are these rpcs)
+            names = r.sample(["SetIamPolicy", "GetIamPolicy", "TestIamPermissions"], r.randint(1, 3)) + [n for n in names if "Iam" not in n][:2]
         elif defect_case in (True, "ads-ci") and si == 0:
             names = ["GetBook", "Getbook"] + [n for n in names if n.lower() != "getbook"][:2]
         for ri, rn in enumerate(names):
             forced = defect_case == "streaming" and ri < 3      # streaming stream: requests with fields (REQUIRED, reserved words)
             presence = defect_case == "presence" and ri < 3     # REQUIRED proto3-optional / real-oneof members after a plain field
-            if r.random() < 0.12 and not forced and not presence:
+            if rn in IAM_REQ and r.random() < 0.5:
+                typ, dep = IAM_REQ[rn], "google/iam/v1/iam_policy.proto"
+                f.dep(dep)
+                inp = typ
+            elif r.random() < 0.12 and not forced and not presence:
                 typ, dep = r.choice(NON_PP)
                 f.dep(dep)
                 inp = typ
@@ -143,6 +153,12 @@ def meta_api(r, defect_case=False):
         yaml = {"type": "google.api.Service", "config_version": 3, "name": "meta.example.com",
                 "publishing": {"library_settings": [{"version": pkg, "python_settings": {"common": {"selective_gapic_generation": {
                     "methods": sorted(public), "generate_omitted_as_internal": True}}}}]}}
+    if defect_case == "iam" or (defect_case is False and yaml is None and r.random() < 0.08):
+        # the IAMPolicy mixin listed in the service yaml (api.has_iam_mixin), WITHOUT the add-iam-methods option
+        yaml = {"type": "google.api.Service", "config_version": 3, "name": "meta.example.com",
+                "apis": [{"name": f"{pkg}.{svc_names[0]}"}, {"name": "google.iam.v1.IAMPolicy"}]}
+    elif defect_case == "iam-option" or (defect_case is False and yaml is None and r.random() < 0.05):
+        params.append("add-iam-methods")
     req = apigen.request(files)
     return req, params, yaml
 
@@ -168,7 +184,7 @@ def describe(case):
     from google.api import field_behavior_pb2
     req = apigen.req_from_b64(case["request_b64"])
     pkgs = [p.package for p in req.proto_file if p.name in req.file_to_generate]
-    package = os.path.commonprefix(pkgs).rstrip(".")
+    package = ".".join(os.path.commonprefix([p.split(".") for p in pkgs]))
     msgs = {}
 
     def walk(prefix, m, fpkg):
@@ -232,6 +248,10 @@ def extra_features(case, d):
         out.append("service without rpcs")
     if any(s["sub"] for s in d["svcs"]):
         out.append("service in a proto sub-package")
+    if any(a.get("name") == "google.iam.v1.IAMPolicy" for a in (case.get("yaml") or {}).get("apis", [])):
+        out.append("IAMPolicy mixin in the service yaml" + (" + own IAM rpcs" if {x["name"] for s in d["svcs"] for x in s["rpcs"]} & set(IAM_REQ) else ""))
+    if d["add_iam"]:
+        out.append("add-iam-methods option")
     from google.api import field_behavior_pb2 as _fb
     for fp in req.proto_file:
         if fp.name in req.file_to_generate:
@@ -509,6 +529,11 @@ def run_e2e(ctx, cases, label="e2e"):
         for s in d["svcs"]:
             for x in s["rpcs"]:
                 byname.setdefault(x["name"], []).append(x)
+        allowed = {osnake(n) for n in byname} | (IAM_KEYS if d["add_iam"] else set())
+        for k in table:
+            if k not in allowed:
+                ctx.violation(f"METHOD_TO_PARAMS has the key {k!r} which is no RPC of the target package"
+                              + (" (and the add-iam-methods option is not given)" if k in IAM_KEYS else ""), case)
         for sn, sv in services.items():
             for kind, cl in sv.get("clients", {}).items():
                 for rn in cl.get("rpcs", {}):
@@ -610,6 +635,7 @@ def run(ctx):
     cases += [c for c in (make_case("C15-t2-subpkg", i, "subpkg") for i in range(ctx.n(4, 24))) if c]
     cases += [c for c in (make_case("C15-t2-streaming", i, "streaming") for i in range(ctx.n(4, 24))) if c]
     cases += [c for c in (make_case("C15-t2-presence", i, "presence") for i in range(ctx.n(4, 24))) if c]
+    cases += [c for c in (make_case("C15-t2-iam", i, "iam") for i in range(ctx.n(3, 16))) if c]
     checks = run_t2(ctx, cases) + run_strings(ctx, ctx.n(150, 1500))
     failing, errors, nf = evaluate(ctx, "c15t2", checks, "T2")
     ctx.oblige(f"T2 model = gapic schema objects (gapic_metadata, client/method names, legacy_flattened_fields, snake/module names) "
@@ -624,6 +650,8 @@ def run(ctx):
     e2e += [c for c in (make_case("C15-e2e-streaming", i, "streaming") for i in range(ctx.n(3, 12))) if c]
     e2e += [c for c in (make_case("C15-e2e-presence", i, "presence") for i in range(ctx.n(3, 12))) if c]
     e2e += [c for c in (make_case("C15-e2e-ads-ci", i, "ads-ci") for i in range(ctx.n(3, 12))) if c]
+    e2e += [c for c in (make_case("C15-e2e-iam", i, "iam") for i in range(ctx.n(4, 16))) if c]
+    e2e += [c for c in (make_case("C15-e2e-iam-option", i, "iam-option") for i in range(ctx.n(1, 6))) if c]
     checks = run_e2e(ctx, e2e)
     failing, errors, nf = evaluate(ctx, "c15t1", checks, "T1")
     ctx.oblige(f"T1 emitted gapic_metadata.json, METHOD_TO_PARAMS and emitted class/def names = model output "
